@@ -16,6 +16,7 @@ import Rl.Undo
 import Rl.KillRing
 import Rl.History
 import Rl.RenderOp
+import Rl.Layout
 namespace Rl
 
 inductive InputMode | command | insert | replace
@@ -81,8 +82,15 @@ structure Ed where
   hint : Option Text
   highlightChar : Bool
   defaultPrompt : Bool
-  /-- `layout.prompt_size.col`: column where the text starts, as of the last refresh -/
+  /-- `layout.prompt_size.col`: column where the text starts, as of the last refresh / cursor move -/
   layoutPromptCol : Nat := 0
+  /-- `layout.cursor`: where the renderer believes the cursor is.  Written by every `refresh`
+      (`compute_layout`), by `move_cursor`, by the fast path of `edit_insert` and reset by
+      `clear_screen`.  (`external_print` and `page_completions` reset it right before a refresh, which
+      overwrites it; `move_cursor_to_end` sets it to `layout.end` only right before the read returns —
+      Interrupt / accept — which is why `layout.end` itself need not be tracked: nothing the editor
+      model decides depends on it; lib.rs:188 touches only `end.row`.) -/
+  layoutCursor : Pos := {}
   input : Input
   obs : List Obs          -- most recent first
   validatorCalls : List Text  -- most recent first
@@ -208,46 +216,67 @@ def highlightCharStep : EM Bool := fun s =>
     else .ok (false, s)
   else .ok (false, s)
 
-/-- column reached after printing `t` from column 0 on a `cols`-wide terminal
-    (`calculate_position(..).col` for text without tabs or escape sequences; since the repair of
-    the pending-wrap column the value `cols` is kept when the text ends exactly at the margin) -/
-def promptColOf (t : Text) : Nat :=
-  (S.seg t).foldl (fun col g =>
-    if g == ['\n'] then 0
-    else
-      let w := U.width g
-      if col + w > cfg.cols then w else col + w) 0
+/-- what `PosixRenderer` knows (terminal width, tab stop 8, the width tables) -/
+def edR : RCfg := { cols := cfg.cols, gw := U.width, cw := U.cwidth }
+
+/-- `out.calculate_position(prompt, Position::default())` -/
+def promptSizeOf (t : Text) : Pos := calculatePosition S (edR U cfg) t {}
+
+/-- column reached after printing `t` from column 0 on a `cols`-wide terminal -/
+def promptColOf (t : Text) : Nat := (promptSizeOf S U cfg t).col
+
+/-- `calculate_position(&line[..pos], prompt_size)`: the cursor cell for the current line.  (Off a
+    character boundary the real code panics on the slice; the cursor is always on a boundary — C03 —
+    and the renderer model `computeLayout` keeps that panic, so the fallback is never observed.) -/
+def cursorFor (psize : Pos) (s : Ed) : Pos :=
+  match splitAtByte s.line.buf s.line.pos with
+  | some (before, _) => calculatePosition S (edR U cfg) before psize
+  | none => psize
 
 /-- C02: append to the render log -/
 def logRender (f : Ed → RenderOp) : EM Unit := modify (fun s => { s with render := f s :: s.render })
 
+/-- the layout fields the editor model tracks, as `State::refresh` (= `compute_layout`) leaves them -/
+def setRefreshLayout (prompt : Text) (dflt : Bool) : EM Unit :=
+  modify (fun s => { s with defaultPrompt := dflt, layoutPromptCol := promptColOf S U cfg prompt,
+                            layoutCursor := cursorFor S U cfg (promptSizeOf S U cfg prompt) s })
+
 def refreshLine : EM Unit := do
   updateHint cfg
   let _ ← highlightCharStep cfg
-  modify (fun s => { s with defaultPrompt := true, layoutPromptCol := promptColOf S U cfg cfg.prompt })
+  setRefreshLayout S U cfg cfg.prompt true
   logRender (fun s => .refresh none s.line.buf s.line.pos s.hint)
 
 /-- `msg` is the text displayed in place of the hint (C02 log only) -/
 def refreshLineWithMsg (msg : Option Text := none) : EM Unit := do
   modify (fun s => { s with hint := none })
   let _ ← highlightCharStep cfg
-  modify (fun s => { s with defaultPrompt := true, layoutPromptCol := promptColOf S U cfg cfg.prompt })
+  setRefreshLayout S U cfg cfg.prompt true
   logRender (fun s => .refresh none s.line.buf s.line.pos msg)
 
 /-- `prompt` is the dynamic prompt text -/
 def refreshPromptAndLine (prompt : Text) : EM Unit := do
   updateHint cfg
   let _ ← highlightCharStep cfg
-  modify (fun s => { s with defaultPrompt := false, layoutPromptCol := promptColOf S U cfg prompt })
+  setRefreshLayout S U cfg prompt false
   logRender (fun s => .refresh (some prompt) s.line.buf s.line.pos s.hint)
 
-/-- `move_cursor`: a full refresh (without hint display, `self.hint` untouched) only when a
-    character gets or loses its highlight; otherwise the layout's prompt size is reset to the
-    default prompt's (when the cursor cell changes — approximated as always) -/
+/-- `move_cursor` (edit.rs:132-151): nothing at all happens — `highlight_char` is not even asked —
+    when the renderer already believes the cursor to be in the right cell; otherwise a full refresh
+    (default prompt, no hint display, `self.hint` untouched) when a character gets or loses its
+    highlight, else the cursor is moved and `layout.prompt_size` / `layout.cursor` are updated.
+    (The log entry is written in every case: the renderer model takes the same decision itself;
+    `hl = false` stands for "not asked".) -/
 def moveCursor : EM Unit := do
-  let hl ← highlightCharStep cfg
-  modify (fun s => { s with layoutPromptCol := promptColOf S U cfg cfg.prompt })
-  logRender (fun s => .moveCursor s.line.buf s.line.pos hl)
+  let s ← get
+  let cursor := cursorFor S U cfg (promptSizeOf S U cfg cfg.prompt) s
+  if s.layoutCursor == cursor then
+    logRender (fun s => .moveCursor s.line.buf s.line.pos false)
+  else do
+    let hl ← highlightCharStep cfg
+    if hl then setRefreshLayout S U cfg cfg.prompt true
+    else modify (fun s => { s with layoutPromptCol := promptColOf S U cfg cfg.prompt, layoutCursor := cursor })
+    logRender (fun s => .moveCursor s.line.buf s.line.pos hl)
 
 /-! ### custom bindings -/
 
@@ -783,16 +812,32 @@ def restore : EM Unit := do
   let sv ← (fun s => .ok (s.saved, s) : EM LB)
   lb S U (LB.update S U sv.buf sv.pos)
 
+/-- `edit_insert` (edit.rs:360-389).  `push = false` goes through `refresh_line()`.  With `push`
+    the hint is recomputed, then the short-circuit guard of the fast path is evaluated in source order:
+    `highlight_char` (which mutates the flag) is asked only when everything before it holds; the fast
+    path moves `layout.cursor` right by the character's width and leaves `layout.prompt_size` alone;
+    otherwise `refresh` is called directly (no `highlight_char` call).  In the log `hl = false` when
+    `highlight_char` was not asked (the renderer model's guard is false before it looks at `hl`). -/
 def editInsert (ch : Char) (n : Nat) : EM Unit := do
   match ← lb S U (LB.insert S U ch n) with
-  | some push => do
+  | some push =>
     let noPrevHint := (← get).hint.isNone
-    -- both the fast path and the full refresh recompute the hint; the full refresh lays the line
-    -- out after the default prompt (the fast path is only taken when that is already the case)
     updateHint cfg
-    modify (fun s => { s with layoutPromptCol := promptColOf S U cfg cfg.prompt })
-    let hl ← highlightCharStep cfg   -- evaluated by the fast-path guard or by refresh_line
-    logRender (fun s => .insert ch n push s.line.buf s.line.pos s.hint noPrevHint hl)
+    if push then do
+      let s ← get
+      let w := U.cwidth ch
+      if n == 1 && w != 0 && s.layoutCursor.col + w < cfg.cols && (s.hint.isNone && noPrevHint) then do
+        let hl ← highlightCharStep cfg
+        if hl then setRefreshLayout S U cfg cfg.prompt true
+        else modify (fun s => { s with layoutCursor := { s.layoutCursor with col := s.layoutCursor.col + w } })
+        logRender (fun s => .insert ch n push s.line.buf s.line.pos s.hint noPrevHint hl)
+      else do
+        setRefreshLayout S U cfg cfg.prompt true
+        logRender (fun s => .insert ch n push s.line.buf s.line.pos s.hint noPrevHint false)
+    else do
+      let hl ← highlightCharStep cfg
+      setRefreshLayout S U cfg cfg.prompt true
+      logRender (fun s => .insert ch n push s.line.buf s.line.pos s.hint noPrevHint hl)
   | none => pure ()
 
 def graphemeCount (t : Text) : Nat := (S.seg t).length
@@ -1030,7 +1075,10 @@ def execute (cmd : Cmd) : EM Status := do
     else pure .proceed
   | .move .endOfLine => do editMove S U cfg (LB.moveEnd S U); pure .proceed
   | .move (.forwardChar n) => do editMove S U cfg (LB.moveForward S U n); pure .proceed
-  | .clearScreen => do logRender (fun _ => .clearScreen); refreshLine S U cfg; pure .proceed
+  | .clearScreen => do
+    logRender (fun _ => .clearScreen)
+    modify (fun s => { s with layoutCursor := {} })   -- `State::clear_screen`
+    refreshLine S U cfg; pure .proceed
   | .nextHistory => do editHistoryNext S U cfg false; pure .proceed
   | .previousHistory => do editHistoryNext S U cfg true; pure .proceed
   | .lineUpOrPreviousHistory n => do
